@@ -14,10 +14,10 @@ var (
 	methods  = []string{"GET", "POST", "PUT"}
 	schemes  = []string{"http", "https"}
 	hosts    = []string{"a.example", "b.example", "c.test"}
-	paths    = []string{"/", "/x", "/x/y", ""}
-	queries  = []string{"", "k=v", "k=w", "k=v&k=w", "j=1", "k=v&j=1", "k", "k=", "&&k=v&", "j=1&k=w"}
+	paths    = []string{"/", "/x", "/x/y", "", "/X"}
+	queries  = []string{"", "k=v", "k=w", "k=v&k=w", "j=1", "k=v&j=1", "k", "k=", "&&k=v&", "j=1&k=w", "K=v", "k=V"}
 	hnames   = []string{"X-A", "X-B", "Accept"}
-	hvalues  = []string{"1", "2", "", "a b"}
+	hvalues  = []string{"1", "2", "", "a b", "A B"}
 	statuses = []int{200, 204, 404, 500}
 )
 
@@ -54,7 +54,21 @@ func genMethod(r *core.Rand, api bool) string {
 	if r.Chance(1, 12) || (api && r.Chance(1, 3)) {
 		return pick(r, []string{"CONNECT", "CONNECT", "DELETE", "HEAD", "OPTIONS", "PATCH"})
 	}
-	return pick(r, methods)
+	return caseVariant(r, pick(r, methods))
+}
+
+// caseVariant: now and then the same word in lower or mixed case. Methods, header values, URL parts
+// and query values are compared exactly by the verifiers (method.Filter alone folds case).
+func caseVariant(r *core.Rand, s string) string {
+	switch r.Intn(8) {
+	case 0:
+		return strings.ToLower(s)
+	case 1:
+		if len(s) > 1 {
+			return s[:1] + strings.ToLower(s[1:])
+		}
+	}
+	return s
 }
 
 func genMsg(r *core.Rand, id int) *msg {
@@ -124,7 +138,7 @@ func (g *treeGen) leaf() *node {
 	case 3, 4, 5, 6:
 		n.leaf, n.args = "header", []string{pick(r, hnames), pick(r, hvalues)}
 	case 7, 8:
-		n.leaf, n.args = "method", []string{pick(r, methods)}
+		n.leaf, n.args = "method", []string{caseVariant(r, pick(r, methods))}
 		if r.Chance(1, 30) {
 			n.args[0] = ""
 		}
